@@ -1012,3 +1012,22 @@ Proof.
     rewrite lookup_filter_keep; auto. intros k. simpl. apply negb_true_iff.
     destruct (path_eqb p (s :: q)) eqn:E; auto. apply path_eqb_eq in E. congruence.
 Qed.
+
+(* ---- the working directory: only remake looks at the head; a stored path is cleared the same way wherever the
+   process has moved to ---- *)
+Lemma clear_ignores_head : forall c h p w, clear (with_head c h) p w = clear c p w.
+Proof. reflexivity. Qed.
+
+Theorem close_ignores_cwd : forall c rh cwd1 cwd2 st cl w,
+  run_hop (cfg_at c rh cwd1) st (HClose cl) w = run_hop (cfg_at c rh cwd2) st (HClose cl) w /\
+  run_hop (cfg_at c rh cwd1) st (HExit cl) w = run_hop (cfg_at c rh cwd2) st (HExit cl) w.
+Proof.
+  intros. destruct rh as [r|]; simpl; split; reflexivity.
+Qed.
+
+(* norm_from is a fold: resolving the head first and appending the rest is the same as resolving everything *)
+Lemma norm_from_app : forall a b st, norm_from st (a ++ b) = norm_from (norm_from st a) b.
+Proof.
+  induction a as [|s a IH]; intros b st; simpl; auto.
+  destruct (is_empty s || is_dot s); auto. destruct (is_dotdot s); auto.
+Qed.
